@@ -310,7 +310,7 @@ func (rw *rewriter) run() bool {
 	if after == total {
 		return false
 	}
-	if rw.needRT {
+	if rw.needRT && !rw.imports(simrtPath) {
 		astutil.AddNamedImport(rw.fset, rw.file, "simrt", simrtPath)
 	}
 	if rw.needNet {
@@ -318,6 +318,15 @@ func (rw *rewriter) run() bool {
 	}
 	rw.pruneImports()
 	return true
+}
+
+func (rw *rewriter) imports(path string) bool {
+	for _, imp := range rw.file.Imports {
+		if p, _ := strconv.Unquote(imp.Path.Value); p == path && (imp.Name == nil || imp.Name.Name == "simrt") {
+			return true
+		}
+	}
+	return false
 }
 
 // pruneImports blanks imports that the rewrite left unused.
